@@ -70,6 +70,10 @@ structure St where
   inst : Option TreeDriver.TInst := none
   /-- root of the current instance, computed once per tree state (the ideal tree recomputes it from the leaves) -/
   rootCache : Option Nat := none
+  /-- storage location of the current RLN instance when it was created on a caller-chosen persistent location -/
+  path : Option String := none
+  /-- the current tree instance is over the toy hasher of the generic-tree streams (`H a b = 3a + 5b + 11`, default leaf 7) -/
+  toy : Bool := false
 
 def showOutcome (o : Outcome String) : String :=
   match o with
@@ -116,10 +120,16 @@ def isHashOp (op : String) : Bool :=
   op == "pub_poseidon" || op == "ffi_poseidon" || op == "h2f" || op == "pub_hash" || op == "ffi_hash" || op == "keccak" ||
   isFailingIo op
 
+/-- the toy hasher of the generic-tree streams: any two-to-one function serves (the tree code is generic in its hasher) -/
+def toyH (a b : Nat) : Nat := (3 * a + 5 * b + 11) % P
+
+def tenv (st : St) : TreeDriver.TEnv :=
+  if st.toy then { H := toyH, spec := st.env.mode == .spec, dflt := 7 } else { H := st.env.H2, spec := st.env.mode == .spec }
+
 def treeStep (st : St) (w : List String) : St × String :=
   match st.inst with
   | some inst =>
-    let (inst', r) := TreeDriver.stepT { H := st.env.H2, spec := st.env.mode == .spec } inst w
+    let (inst', r) := TreeDriver.stepT (tenv st) inst w
     let observer := w.head? == some "root" || w.head? == some "get" || w.head? == some "next" || w.head? == some "sub" ||
       w.head? == some "proof" || w.head? == some "pverify" || w.head? == some "obs" || w.head? == some "empty"
     ({ st with inst := some inst', rootCache := if observer then st.rootCache else none }, r)
@@ -149,9 +159,16 @@ def rlnStep (st : St) (w : List String) : St × String :=
   let spec := pe.spec
   let fwd (ws : List String) : St × String := treeStep st ws
   match w with
+  -- an RLN object on a caller-chosen persistent location (`RLN::new` with a `tree_config`, `RLN::new_with_params` with a tree
+  -- configuration): created empty the first time; the same location again is the same tree (everything was flushed before)
+  | ["new_at", p] | ["new_params_at", p] =>
+    if st.path == some p && st.inst.isSome then (st, "ok") else
+    match TreeDriver.newInst { H := st.env.H2, spec := spec } "pm" 20 with
+    | some inst => ({ st with inst := some { inst := inst }, rootCache := none, path := some p, toy := false }, "ok")
+    | none => (st, "bad-op")
   | ["new"] | ["new_params"] =>      -- `RLN::new` and `RLN::new_with_params` on the repository's own key file and graph: the same object
     match TreeDriver.newInst { H := st.env.H2, spec := spec } "pm" 20 with
-    | some inst => ({ st with inst := some { inst := inst }, rootCache := none }, "ok")
+    | some inst => ({ st with inst := some { inst := inst }, rootCache := none, path := none, toy := false }, "ok")
     | none => (st, "bad-op")
   -- the same call with a reader that fails after delivering its bytes / an output that takes nothing: `read_to_end` or
   -- `write_all` returns the error before any state is touched (proving, reading and key generation have no state)
@@ -323,6 +340,21 @@ def step (st : St) (line : String) : St × String :=
   | ["bundled_buf", ins, patch] => match GraphDriver.step (e.mode == .spec) ["bundled_buf", ins, patch] with
     | some r => (st, r)
     | none => (st, "bad-op")
+  -- the typed layer: a fresh tree with one leaf, then the request through parser / prover / values / verifier — the same outcome
+  -- as the RLN object gives for that history
+  | ["typed_prove", i, v, b] =>
+    let st0 : St := { env := st.env }
+    let (st1, _) := rlnStep st0 ["new"]
+    let (st2, r2) := rlnStep st1 ["set_leaf", i, v]
+    if r2 != "ok" then (st, "bad-op") else
+    let (st3, r) := rlnStep st2 ["prove_req", b]
+    if r.startsWith "ok " then
+      match rlnView st3 with
+      | some (root0, _, _, _) =>
+        let rootHex := showBytes (Zk.frToBytesLe (root0 ()))
+        (st, r ++ (if ((r.drop 3).take 64).toString == rootHex then " accept" else " reject-false"))
+      | none => (st, r)
+    else (st, r)
   | "rln" :: rest =>
     match (if rest.head? == some "seeded_key_gen" || rest.head? == some "seeded_ext_key_gen" || rest.head? == some "key_gen" || rest.head? == some "ext_key_gen"
            then ProtoDriver.stepPure (protoEnv e) ("rln" :: rest) else none) with
@@ -383,6 +415,31 @@ def step (st : St) (line : String) : St × String :=
       | .model => showOutcome ((Graph.evalUTres .TernCond a b c).map fr)
       | .spec => fr (Graph.Circom.semTres .TernCond a b c))
     | _, _, _ => (st, "bad-op")
+  -- a parameter TABLE of several rows in any order (`Poseidon::<Fr>::from(&rows).hash(inp)`): the row whose width is the
+  -- number of inputs + 1 is the one that counts, wherever it stands; no such row is an error
+  | "uposeidon_rows" :: rows :: args =>
+    let parsed : List (Option (Nat × Nat × Nat × Nat)) := (rows.splitOn ",").map (fun r =>
+      match (r.splitOn ":").map String.toNat? with
+      | [some t, some rf, some rp, some sk] => some (t, rf, rp, sk)
+      | _ => none)
+    match parseNats args with
+    | some inp =>
+      if parsed.any Option.isNone then (st, "bad-op") else
+      let tab := parsed.filterMap id
+      match tab.find? (fun r => r.1 == inp.length + 1) with
+      | none => (st, "err")
+      | some (t, rf, rp, sk) =>
+        let r : Outcome Nat :=
+          match e.mode with
+          | .model => match Poseidon.implParams t rf rp sk with
+            | some pr => Poseidon.implHash [pr] inp
+            | none => .panic
+          | .spec => if inp.isEmpty then .err else
+            match Poseidon.specParams t rf rp sk with
+            | some pr => .ok (Poseidon.spec pr inp)
+            | none => .panic
+        (st, showOutcome (r.map fr))
+    | none => (st, "bad-op")
   | "uposeidon" :: t :: rf :: rp :: sk :: args =>
     match t.toNat?, rf.toNat?, rp.toNat?, sk.toNat?, parseNats args with
     | some t, some rf, some rp, some sk, some inp =>
@@ -413,8 +470,9 @@ def step (st : St) (line : String) : St × String :=
   | ["tree", "new", backend, depth] =>
     match depth.toNat? with
     | some d =>
-      match TreeDriver.newInst { H := e.H2, spec := e.mode == .spec } backend d with
-      | some inst => ({ st with inst := some { inst := inst }, rootCache := none }, "ok")
+      let toy := backend == "fullT" || backend == "optT"
+      match TreeDriver.newInst (tenv { st with toy := toy }) backend d with
+      | some inst => ({ st with inst := some { inst := inst }, rootCache := none, toy := toy }, "ok")
       | none => (st, "bad-op")
     | none => (st, "bad-op")
   | w => match ProtoDriver.stepPure (protoEnv e) w with
